@@ -330,6 +330,22 @@ Theorem C04_match_written_refuted : exists ids leaf,
 Proof. exact match_written_refuted. Qed.
 Print Assumptions C04_match_written_refuted.
 
+(* --- the identity check never clears a trust-store failure: when the chain is
+   not rooted in the trust stores of the statement, authenticity does not pass
+   whatever the identities are (the lone wildcard included) --- *)
+Theorem C04_untrusted_never_passes : forall log ids chain v rej,
+  model (IUntrusted log ids chain) = OVerify v rej -> is_pass v = false /\ rej = negb log.
+Proof. exact untrusted_never_passes. Qed.
+Print Assumptions C04_untrusted_never_passes.
+
+Theorem C04_untrusted_result : forall log ids chain, validate_ids ids = WOk ->
+  model (IUntrusted log ids chain) =
+  if log then OVerify (if is_pass (verify_identities ids chain) then VStoreFail
+                       else verify_identities ids chain) false
+  else OVerify VStoreFail true.
+Proof. exact untrusted_result. Qed.
+Print Assumptions C04_untrusted_result.
+
 (* ---------- non-vacuity ---------- *)
 
 Definition ex_leaf := "CN=alice,O=Notary,ST=WA,C=US".
@@ -486,4 +502,12 @@ Example C04_example_written :
   /\ written_attrs "C=US,O=x" = Some [("C", "US"); ("O", "x")]
   /\ parse_distinguished_name "C=US,O=x" = DErr (EMissing "ST")
   /\ parse_distinguished_name "C=US,ST=,O=x" = DErr (EMissing "ST").
+Proof. vm_compute. repeat split; reflexivity. Qed.
+
+(* C04_untrusted_*: matching identity, wildcard and non-matching identity over an untrusted chain *)
+Example C04_example_untrusted :
+  model (IUntrusted true [ex_id] [ex_leaf; ex_root]) = OVerify VStoreFail false
+  /\ model (IUntrusted true [wildcard] [ex_leaf; ex_root]) = OVerify VStoreFail false
+  /\ model (IUntrusted true ["x509.subject:C=US,ST=WA,O=Nope"] [ex_leaf; ex_root]) = OVerify VNoMatch false
+  /\ model (IUntrusted false [ex_id] [ex_leaf; ex_root]) = OVerify VStoreFail true.
 Proof. vm_compute. repeat split; reflexivity. Qed.
